@@ -154,7 +154,7 @@ def plan(ctx):
                 F.Suite(UNDER, "kv", {1: 2, 2: 2, 3: 2}),
                 F.Suite(UNDER, "kv3", {4: 1})]
     return [F.Suite(REDUCE_V, "v", {1: 1, 2: 1, 3: 1}),
-            F.Suite(REDUCE_SERIES, "v", {4: 1}),
+            F.Suite(REDUCE_SERIES, "v", {4: 0}),
             F.Suite(REDUCE_K, "k", {1: 1, 2: 1, 3: 1, 4: 1}),
             F.Suite(GROUP, "kv", {1: 1, 2: 1}),
             F.Suite(GROUP_MAIN, "kv", {3: 0}),
@@ -163,7 +163,7 @@ def plan(ctx):
             F.Suite(PERBATCH, "kv", {1: 1, 2: 1}),
             F.Suite(PERBATCH, "kv3", {3: 0}),
             F.Suite(UNDER_Q, "kv", {1: 1, 2: 1}),
-            F.Suite(UNDER_Q, "kv3", {3: 1})]
+            F.Suite(UNDER_Q, "kv3", {3: 0})]
 
 
 RULE = ("every table of R rows over (k, x) with k in {a,b}, x in {1,2,NaN} (family v: k fixed; k: x fixed; kv: all six rows; "
